@@ -41,6 +41,7 @@ def applyOp (b : Bundle) : List String → Option Bundle
   | ["setpayload", h] => do some (b.setPayload (← bytesOfHex h))
   | ["setpayloadblock", nm, fl, h] => do some (b.setPayloadBlock { newPayloadBlock (← fl.toNat?) (← bytesOfHex h) with num := (← nm.toNat?) })
   | ["setcrc", t] => do some (b.setCrc (← t.toNat?))
+  | ["tocbor"] => some (b.toCbor).1
   | ["upd", node, rt, now] => do
     some (b.updateExtensions (← parseEidTok node) (← rt.toNat?) (← now.toNat?)).bundle
   | _ => none
